@@ -1467,8 +1467,8 @@ class LineageDB_Sqlite(abc.Mapping):
     columns = (
         "superkingdom",
         "phylum",
-        "order_",
         "class",
+        "order_",
         "family",
         "genus",
         "species",
